@@ -6,6 +6,7 @@ import sys
 sys.path.insert(0, '/verif/lib')
 import vlib
 import persistlib as pl
+import corelib
 
 EVIDENCE_DEFAULTS = dict(level='proof', rule='not run: preparation failed')
 
@@ -24,6 +25,13 @@ def run(ctx):
     stats, results = pl.run_case_shards(ctx, shards)
     pl.report_shards(ctx, stats, results, 'loader')
 
+    # engine part of the model (check_files / doCheck of Model/Shrink.v) vs the real doCheck run in directories
+    # holding unparsable files, other versions and recordings of passing / invalid / failing runs
+    etotal, ebroken = corelib.correspondence(ctx, 'check-cases', 8 if thorough else 3,
+                                             ['-n', '2', '-na', '0', '-nf', '120' if thorough else '60', '-profile', 'all'], ('_dcf',))
+    for what, detail in ebroken:
+        ctx.broken('correspondence', what, detail)
+    stats['engine_dcf'] = etotal.get('stats', etotal)
     n = 2000 if thorough else 100
     rc, out, err = ctx.harness('persist-tworun', '-seed', s, '-n', n, '-part', 'c17', timeout=1500 if thorough else 400)
     tw = pl.parse_json_line(out) if rc == 0 else None
@@ -44,7 +52,7 @@ def run(ctx):
         stats['tworun'] = {k: c17.get(k) for k in ('scenarios', 'ok', 'distinct', 'classes', 'stats', 'files_by_kind')}
 
     ctx.partial.append('that checkFailFile/doCheck ignore an unusable file and continue with the same seeds is tested end to end by persist-tworun, '
-                       'not proved here: its theorem needs the engine model; unreadable files (open/read errors) are outside the byte-level model')
+                       'and proved in the engine model (C17_unusable_files_change_nothing, no hypothesis on the property), which is tied to the real doCheck by the fail-file correspondence (check-cases -nf); unreadable files (open/read errors) are outside the byte-level model')
     ctx.partial.append('Go library functions (bufio.Scanner, strings.TrimSpace, strconv.ParseUint) are re-modelled and tied to the real ones by differential testing only')
     return ctx.finish(
         level='proof',
